@@ -47,7 +47,9 @@ var (
 		// bucket texts with a closing brace that is not the last byte: the list is everything after the first {, less one final }
 		"lang:{go}1,rust}", "mode:{a,b}x",
 		// characters that HTML escaping rewrites (a viewer must look the raw name up)
-		"latency:{<1s,>1s}", `editor/"quoted"&more`}
+		"latency:{<1s,>1s}", `editor/"quoted"&more`,
+		// one bucket of a chart listed by itself, without braces
+		"tool/cache:hit"}
 	vocabStackExprs = []string{"crash/crash", "gopls/bug", "editor/opens"}
 	frames          = "\ngolang.org/x/tools/gopls.main:+3,+0x1a\n\".run:+10,+0x44\nruntime.main:+100,+0x2"
 )
@@ -67,7 +69,7 @@ func localNames(r *verifrt.Rand, canary string) map[string]uint64 {
 		// near misses
 		"flag:", "flag:{v,x,json}", "flag:vx", "flag:V", "xflag:v", "flag:v ", " flag:v", "flag:v,x", "flag", "editor/opens2", "editor/open", "Editor/opens",
 		"gopls/gotoolchain:", "gopls/gotoolchain:auto,local", "gopls/client:emacs", "go/cmd/build}", "{v,x,json}",
-		"lang:go", "lang:go}1", "lang:rust", "lang:rust}", "mode:a", "mode:b", "mode:b}x",
+		"tool/cache:hit", "tool/cache:miss", "tool/cache", "lang:go", "lang:go}1", "lang:rust", "lang:rust}", "mode:a", "mode:b", "mode:b}x",
 		"latency:<1s", "latency:>1s", "latency:1s", "latency:&lt;1s", `editor/"quoted"&more`, "editor/&#34;quoted&#34;&amp;more", "crash/<unknown>" + frames, "crash/&lt;unknown&gt;" + frames,
 		// plain counters named like stacks and vice versa
 		"crash/crash", "gopls/bug",
@@ -377,6 +379,11 @@ func genSeqScenario(r *verifrt.Rand, i int) *seqScenario {
 		// first, the second or both; everything else permits the upload
 		j := i / 20
 		a := verifref.Build{Program: "golang.org/x/tools/gopls", Version: "v1.2.3", GoVersion: "go1.22.1", GOOS: "linux", GOARCH: "amd64"}
+		if j%5 != 4 {
+			// (the tool is not always gopls: one whose counter files are named like
+			// local reports, one with a plain name)
+			a.Program = []string{a.Program, localProg, "example.com/tool"}[j%3]
+		}
 		b := a
 		s.Cfg.GOOS, s.Cfg.GOARCH, s.Cfg.GoVersion = []string{"linux"}, []string{"amd64"}, []string{"go1.22.1"}
 		vers := []string{"v1.2.3"}
@@ -387,6 +394,10 @@ func genSeqScenario(r *verifrt.Rand, i int) *seqScenario {
 			// another program with the same last path element: the counter files
 			// of the two differ in nothing but the date
 			b.Program = "example.org/forks/gopls"
+			if j%10 == 9 {
+				// ... or a program whose counter files are named like local reports
+				b.Program = localProg
+			}
 			progs = [][]string{{a.Program}, {b.Program}, {a.Program, b.Program}}[approve]
 		case 0:
 			b.GOARCH = "386"
